@@ -61,6 +61,17 @@ var c19Fns = []c19Fn{
 	{"panics", func(x int) int { panic("boom") }, false, nil},
 	{"nilMapWrite", func(x int) int { var m map[string]int; m["a"] = x; return x }, false, nil},
 	{"twoInts", func(a int, b uint8) float64 { return float64(a) + float64(b) }, false, nil},
+	// the shape stdlib.AddStdlibPluginFunc wraps around a plugin function
+	{"pluginStyle", func(a ...interface{}) (interface{}, error) {
+		if len(a) > 0 {
+			if s, ok := a[0].(string); ok && s == "a" {
+				return nil, errors.New("plugin-error")
+			}
+		}
+		return float64(len(a)), nil
+	}, false, nil},
+	{"mapParam", func(m map[interface{}]interface{}) int { return len(m) }, false, nil},
+	{"ptrResult", func(x int) *int { return nil }, false, nil},
 }
 
 func c19CheckResult(c *Ctx, fn string, input string, ret interface{}, err error) bool {
@@ -100,7 +111,7 @@ func c19CheckResult(c *Ctx, fn string, input string, ret interface{}, err error)
 
 func init() {
 	register(&Part{Prop: "C19", Name: "synthetic-adapters", Quick: 8, Thor: 16,
-		Desc: "26 synthetic Go functions (identity per numeric kind, string, bool, interface, slice, variadic, (T,error) nil/non-nil, two results, no result, no args, panicking, nil-map write, mixed ints) x every argument vector of length 0-3 (thorough 0-4) over the 24-value universe, through ECALFunctionAdapter.Run",
+		Desc: "29 synthetic Go functions (identity per numeric kind, string, bool, interface, slice, variadic, (T,error) nil/non-nil, two results, no result, no args, panicking, nil-map write, mixed ints) x every argument vector of length 0-3 (thorough 0-4) over the 24-value universe, through ECALFunctionAdapter.Run",
 		Rule: "odometer over functions x argument vectors; non-trivial = the call returned a value (no error) or an identity function was called with an in-range number",
 		Run: func(c *Ctx) {
 			u := append(append([]uval{}, universe...), universeExtra...)
